@@ -48,6 +48,7 @@ def gen_case(rng, W):
     g.emit("cfg %d 0 1" % W)
     for _ in range(rng.randint(2, 5)):
         g.new()
+    g.n_inputs = g.nxt
     g.emit("nr")
     g.program(rng.randint(3, 28))
     g.emit("tape")
@@ -102,6 +103,17 @@ def gen_case(rng, W):
         for j in range(n):
             q.append(("JTv", len(g.ops), (j, v))); g.emit("get %d" % indep[j])
     g.emit("clrg")
+    # true derivatives of the live variables with respect to the inputs that are still alive (independent oracle:
+    # textbook forward mode in Python; covers "derivatives stay correct while slots are recycled")
+    g.emit("clri"); g.emit("clrd")
+    ins = [k for k in range(g.n_inputs) if k in g.live]
+    outs = list(g.live)
+    if ins and outs:
+        for k in ins:
+            g.emit("indep %d" % k)
+        for k in outs:
+            g.emit("dep %d" % k)
+        q.append(("true", len(g.ops), (ins, outs))); g.emit("jac auto mat")
     return g.ops, {"queries": q, "indep": indep, "dep": dep, "n": n, "m": m}
 
 
@@ -155,6 +167,21 @@ def oracle_case(ops, meta, il):
             if line != "g %d" % J[i][j]:
                 return "op %d (%s): unit-seeded %s pass gives %r, Jacobian entry (%d,%d) is %d" % (
                     oi, ops[oi], "forward" if kind == "col" else "reverse", line, i, j, J[i][j])
+        elif kind == "true":
+            ins, outs = info
+            de = tc.dual_eval(ops[:oi], il[:oi])
+            if de is not None:
+                env, _ = de
+                Jt = [[env[y][1].get(x, 0) for x in ins] for y in outs]
+                p = tc.parse_J(line)
+                if p is not None and len(p[0]) == len(outs):
+                    # rows of variables whose derivative is undefined (default-constructed, never assigned) are not judged
+                    for r, y in enumerate(outs):
+                        if tc.UNDEF in env[y][1]:
+                            p[0][r] = Jt[r]
+                if p is None or p[0] != Jt:
+                    return ("op %d: Jacobian of the live variables w.r.t. the inputs is %r, textbook forward-mode evaluation of the "
+                            "program gives %s" % (oi, line[:200], Jt))
         elif kind == "Ju":
             i, u = info
             e = sum(J[i][j] * u[j] for j in range(n))
